@@ -124,6 +124,10 @@ impl<'a> LuaDocument<'a> {
     pub fn to_rowan_range(&self, range: lsp_types::Range) -> Option<TextRange> {
         let start = self.get_offset(range.start.line as usize, range.start.character as usize)?;
         let end = self.get_offset(range.end.line as usize, range.end.character as usize)?;
+        // an inverted client range has no text range (`TextRange::new` asserts start <= end)
+        if start > end {
+            return None;
+        }
         Some(TextRange::new(start, end))
     }
 
